@@ -24,6 +24,8 @@ inductive Scalar where
 
 inductive TorchKind where
   | tensor | parameter | optimizer | scheduler | module
+  | other      -- any other object whose class lives in a torch module (torch.Generator, torch.dtype, …):
+               -- dispatched to the whole-module torch.save branch without being an nn.Module
   deriving DecidableEq, Repr, Inhabited
 
 /-- what a `torch.save` / `dill.dumps` byte string contains: the pickled class identity and
@@ -186,13 +188,13 @@ def torchFlag : TorchKind → String
   | .tensor | .parameter => "_torch_tensor"
   | .optimizer => "_torch_optimizer"
   | .scheduler => "_torch_scheduler"
-  | .module => "_torch_whole_module"
+  | .module | .other => "_torch_whole_module"
 
 def torchPayload : TorchKind → String
   | .tensor | .parameter => "tensor"
   | .optimizer => "optimizer"
   | .scheduler => "scheduler"
-  | .module => "module"
+  | .module | .other => "module"
 
 mutual
 /-- `_serialize_value(value, group, name, skip…)`: the node stored under `name` -/
